@@ -52,7 +52,9 @@ theorem call_not_settled {s : State} (hi : Inv s) {c : Call} (hc : c ∈ s.calls
   exact ⟨e, ⟨he, hcall⟩, rfl⟩
 
 theorem cleanup_obsSuccess (z : State) : (cleanupCalls (cleanupBatches z)).obsSuccess = z.obsSuccess := by
-  unfold cleanupCalls
+  obtain ⟨fm, hfm⟩ := cleanupCalls_core (cleanupBatches z)
+  rw [hfm]
+  unfold cleanupCallsCore
   simp only [foldl_refundCall_obsSuccess]
   rfl
 
@@ -108,8 +110,8 @@ theorem K_cleanup {z : State} {x : Ext} (hk : K z x)
     exact hk.k2 c ((dropWhile_sublist _).subset hc) hn
 
 theorem K_observe {s : State} {x : Ext} (hk : K s x) (hj : J s x) (hi : Inv s) (h : Nat) (ev : Ev)
-    (ha : admissible x (.observe h ev)) (hp : s.pending = []) :
-    K (doObserve s h ev).1 (x.next s (.observe h ev)) := by
+    (ha : admissibleStd x (.observe h ev)) (hp : s.pending = []) :
+    K (doObserve s h ev).1 (x.nextStd s (.observe h ev)) := by
   have hs3 : solCallTimeoutCmp = .lt := by decide
   have hs4 : solCallNonceOnce = true := by decide
   have hnopanic := (J_observe hj h ev ha).2
@@ -174,7 +176,7 @@ theorem K_observe {s : State} {x : Ext} (hk : K s x) (hj : J s x) (hi : Inv s) (
           simp only at hf ⊢
           subst hf
           simpa using hcobs
-        · simp only [Ext.next]
+        · simp only [Ext.nextStd]
           simp only at hn
           cases ok with
           | false => exact mem_cons_of_mem _ (hk.k4 n (by simpa using hn))
@@ -232,29 +234,34 @@ theorem K_exec {s : State} {x : Ext} (hk : K s x) (hi : Inv s) (n : Nat) : K (do
       simp only
       split
       · refine ⟨fun e he hc hh => ?_, hk2, hk3, hk.k4, hk.k6⟩
-        simp only [mem_append, mem_singleton] at he
+        simp only [dropFromMsg, mem_append, mem_singleton] at he
         rcases he with he | rfl
         · exact hk.k1 e he hc hh
         · cases hh
       · rename_i hok
         refine ⟨fun e he hc hh => ?_, hk2, hk3, hk.k4, hk.k6⟩
-        simp only [refundCall, mem_append, mem_singleton] at he
+        simp only [refundCall, dropFromMsg, mem_append, mem_singleton] at he
         rcases he with he | rfl
         · exact hk.k1 e he hc hh
         · simp only
           rw [hcn]
           exact hk.k3 p hpm (by simpa using hok)
 
-theorem K_step {s : State} {x : Ext} (hk : K s x) (hj : J s x) (hi : Inv s) (op : Op) (ha : admissible x op)
-    (hp : isObserve op = true → s.pending = []) : K (step s op).1 (x.next s op) := by
+theorem K_step {s : State} {x : Ext} (hk : K s x) (hj : J s x) (hi : Inv s) (op : Op) (ha : admissibleStd x op)
+    (hp : isObserve op = true → s.pending = []) : K (step s op).1 (x.nextStd s op) := by
   cases op with
   | send a d t am f =>
     have hd := (next_send_fields x s a d t am f).2.2.2.2
     simp only [step]; unfold doSend
     repeat' split
     all_goals exact K_frame hk rfl rfl rfl (Nat.le_refl _) hd (fun e he => Or.inl he)
+  | psend a d t am f =>
+    have hd := (next_psend_fields x s a d t am f).2.2.2.2
+    simp only [step]; unfold doPSend
+    repeat' split
+    all_goals exact K_frame hk rfl rfl rfl (Nat.le_refl _) hd (fun e he => Or.inl he)
   | cancel id who =>
-    simp only [step, Ext.next]; unfold doCancel
+    simp only [step, Ext.nextStd]; unfold doCancel
     repeat' split
     all_goals first
       | exact hk
@@ -269,7 +276,7 @@ theorem K_step {s : State} {x : Ext} (hk : K s x) (hj : J s x) (hi : Inv s) (op 
     repeat' split
     all_goals exact K_frame hk rfl rfl rfl (Nat.le_refl _) hd (fun e he => Or.inl he)
   | reqBatch t mf bf fr =>
-    simp only [step, Ext.next]
+    simp only [step, Ext.nextStd]
     rcases reqBatch_not_ok s t mf bf fr with ⟨n, hn'⟩ | hsame
     · have hpair : doReqBatch s t mf bf fr = ((doReqBatch s t mf bf fr).1, .ok n) := by rw [← hn']
       rw [(reqBatch_ok hpair).2]
@@ -277,8 +284,21 @@ theorem K_step {s : State} {x : Ext} (hk : K s x) (hj : J s x) (hi : Inv s) (op 
     · rw [hsame]
       exact K_frame hk rfl rfl rfl (Nat.le_refl _) rfl (fun e he => Or.inl he)
   | bridgeCall a r to d m cs =>
-    simp only [step, Ext.next]
-    rcases bridgeCall_cases s a r to d m cs with hsame | ⟨bal', _, hs'⟩
+    simp only [step, Ext.nextStd]
+    rcases bridgeCall_cases s a r to d m cs with hsame | ⟨bal', _, _, _, hs'⟩
+    · rw [hsame]
+      exact K_frame hk rfl rfl rfl (Nat.le_refl _) rfl (fun e he => Or.inl he)
+    · rw [hs']
+      refine ⟨hk.k1, fun c hc hn => ?_, hk.k3, hk.k4, fun n hn => by have := hk.k6 n hn; simp only; omega⟩
+      simp only [mem_append, mem_singleton] at hc
+      rcases hc with hc | rfl
+      · exact hk.k2 c hc hn
+      · have := hk.k6 _ hn
+        simp only at this
+        omega
+  | pcall a r to d m cs =>
+    simp only [step, Ext.nextStd]
+    rcases pcall_cases s a r to d m cs with hsame | ⟨bal', _, _, _, hs'⟩
     · rw [hsame]
       exact K_frame hk rfl rfl rfl (Nat.le_refl _) rfl (fun e he => Or.inl he)
     · rw [hs']
@@ -290,18 +310,18 @@ theorem K_step {s : State} {x : Ext} (hk : K s x) (hj : J s x) (hi : Inv s) (op 
         simp only at this
         omega
   | observe h ev => exact K_observe hk hj hi h ev ha (hp rfl)
-  | exec n => simp only [step, Ext.next]; exact K_exec hk hi n
+  | exec n => simp only [step, Ext.nextStd]; exact K_exec hk hi n
   | setParams p =>
-    simp only [step, Ext.next]
+    simp only [step, Ext.nextStd]
     split
     · exact hk
     · exact K_frame hk rfl rfl rfl (Nat.le_refl _) rfl (fun e he => Or.inl he)
   | block n =>
-    simp only [step, Ext.next, endBlock_eq]
+    simp only [step, Ext.nextStd, endBlock_eq]
     exact K_frame hk rfl rfl rfl (Nat.le_refl _) rfl (fun e he => Or.inl he)
 
 theorem K_run {s : State} {x : Ext} (hk : K s x) (hj : J s x) (hi : Inv s) (ops : List Op)
-    (ha : AdmissibleRun s x ops) (hp : PromptRun s ops) : K (runExt s x ops).1 (runExt s x ops).2 := by
+    (ha : AdmissibleRunStd s x ops) (hp : PromptRun s ops) : K (runExtStd s x ops).1 (runExtStd s x ops).2 := by
   induction ops generalizing s x with
   | nil => exact hk
   | cons op ops ih =>
